@@ -31,7 +31,7 @@ binding names with quotes, newlines or glob characters; handlers that are not sh
 with white space (the documentation itself uses "Monitor pods in cache tier", "every minute") no specific handler
 can exist as a bash function, so only __main__ / __on_startup are in the defined-set domain.
 
-Quick tier: a seeded stratified sample (about 600 ordinary runs + 50 `--config` runs) of MC_quick's cases;
+Quick tier: a seeded stratified sample (about 550 ordinary runs + 50 `--config` runs) of MC_quick's cases;
 thorough: every case of MC_thorough.  Runs are executed in parallel (VERIF_JOBS, default 12).
 """
 import concurrent.futures
@@ -190,9 +190,9 @@ def select_cases(ctx, cases):
     if not ctx.quick():
         return cases
     rnd = random.Random(ctx.seed)
-    quota = {(1, "plain", ""): 220, (1, "plain", "--config"): 40, (1, "spaced-name", ""): 40, (1, "spaced-name", "--config"): 5,
+    quota = {(1, "plain", ""): 200, (1, "plain", "--config"): 40, (1, "spaced-name", ""): 40, (1, "spaced-name", "--config"): 5,
              (1, "typed-binding-named-onStartup", ""): 30, (1, "typed-binding-named-onStartup", "--config"): 5,
-             (2, "plain", ""): 190, (3, "plain", ""): 70}
+             (2, "plain", ""): 180, (3, "plain", ""): 60}
     strata = {}
     for c in cases:
         strata.setdefault((c["n"], c["class"], c["arg"]), []).append(c)
@@ -306,7 +306,7 @@ MANIFEST = {
              "and jq through a generated hook that defines exactly the chosen handlers; the observed (handler, current index, current "
              "binding) sequence, the exit class and the `--config` output are compared with TLC's expectation.",
         note="Trusts TLC, bash 5.2 and jq 1.6 of the sandbox. The repository has no documentation of the handler names; the reference table is "
-             "taken from the property statement / DESIGN 5/C19. Bounds: arrays <= 3 contexts, binding names b1/b2 plus two documented names "
+             "taken from the property statement / DESIGN 5/C19. Bounds: arrays <= 3 contexts, binding names b1 / monitor-pods.v2 plus two documented names "
              "with spaces and the name onStartup on typed contexts; arrays >= 2: <= 2 handlers defined, at most one failing. Not covered: "
              "group/version conversion names, unknown context types, binding names with quotes or glob characters.",
         technique="TLA+ spec + TLC exhaustive check; TLC-generated cases replayed on the real bash framework (bash + jq)",
